@@ -44,12 +44,13 @@ def _mul(a, b):
 
 
 class Dual(Lifted):
-    __slots__ = ("p", "t", "s")
+    __slots__ = ("p", "t", "s", "sq")
 
-    def __init__(self, p, t=0, s=0):
+    def __init__(self, p, t=0, s=0, sq=None):
         self.p = _t(p)
         self.t = _t(t)
         self.s = None if s is None else _t(s)
+        self.sq = sq          # the radicand (a Dual), when this jet was produced by sqrt(): x**2 and x*x return it exactly
 
     @staticmethod
     def lift(o):
@@ -126,6 +127,8 @@ class Dual(Lifted):
     def __pow__(s, k):
         if isinstance(k, (int, _np.integer)) or (isinstance(k, float) and k.is_integer()):
             k = int(k)
+            if k == 2 and s.sq is not None:
+                return s.sq
             if k >= 0:
                 r = Dual(1, 0, 0)
                 for _ in range(k):
@@ -220,11 +223,8 @@ class Dual(Lifted):
             if s.s is None:
                 raise NotDifferentiable("sqrt at 0 with unknown second-order part")
             # sqrt(eps^2 * s) = eps * sqrt(s)
-            return Dual(0, s.s.sqrt(), None)
-        r0 = s.p.sqrt()
-        r1 = s.t / (2 * r0)
-        r2 = None if s.s is None else (s.s - r1 * r1) / (2 * r0)
-        return Dual(r0, r1, r2)
+            return Dual(0, s.s.sqrt(), None, sq=s)
+        return _LazySqrtDual(s)
 
     def exp(s):
         e = s.p.exp()
@@ -239,6 +239,38 @@ class Dual(Lifted):
 
     def copy(s):
         return s
+
+
+class _LazySqrtDual(Dual):
+    """sqrt of a jet with non-zero primal part, evaluated on demand: x**2 returns the radicand without ever creating the
+    root / quotient variables (keeps  norm(v)**2  polynomial in dual-number runs of value())."""
+    __slots__ = ("_rad", "_val")
+
+    def __init__(self, rad):
+        self._rad = rad
+        self._val = None
+        self.sq = rad
+
+    def _force(self):
+        if self._val is None:
+            r = self._rad
+            r0 = r.p.sqrt()
+            r1 = r.t / (2 * r0)
+            r2 = None if r.s is None else (r.s - r1 * r1) / (2 * r0)
+            self._val = (r0, r1, r2)
+        return self._val
+
+    @property
+    def p(self):
+        return self._force()[0]
+
+    @property
+    def t(self):
+        return self._force()[1]
+
+    @property
+    def s(self):
+        return self._force()[2]
 
 
 def primal(x):
